@@ -53,7 +53,7 @@ fn main() {
     let mut counter = 0u8;
     let mut fresh = |n: usize| -> Vec<u8> { (0..n).map(|_| { counter = counter.wrapping_add(1); counter }).collect() };
     let mut shapes: Vec<(Vec<usize>, usize)> = Vec::new();
-    for last in 0..=3usize { shapes.push((vec![], last)); for a in 1..=3usize { shapes.push((vec![a], last)); shapes.push((vec![a, 2], last)); } }
+    for last in 0..=3usize { shapes.push((vec![], last)); for a in 0..=3usize { shapes.push((vec![a], last)); shapes.push((vec![a, 2], last)); shapes.push((vec![a, 0], last)); } }
     for (nonfinal, last) in &shapes {
         for follow in 0..3u8 {
             let mut stream = Vec::new();
